@@ -236,6 +236,10 @@ def conforms(t, decl):
     # as int prints as True / False and names pivot blocks `True/x`
     if t is bool and decl is int:
         return False
+    # a datetime is a date for isinstance only: it neither compares with nor subtracts from the dates of the ledger (TypeError),
+    # and renders with a time of day
+    if t is datetime.datetime and decl is datetime.date:
+        return False
     try:
         return issubclass(t, decl)
     except TypeError:
@@ -300,6 +304,29 @@ class Raised:
 TYPE_ERRORS = ('TypeError', 'AttributeError')
 
 # exception class hierarchy by name, for `except` matching
+_GUARD = '?guard:'
+
+
+def _is_guard_expr(e):
+    """A type or NULL test over names and attribute paths only (no calls besides isinstance), whose
+    value can be stored in a local and tested later with the same meaning."""
+    if isinstance(e, ast.UnaryOp) and isinstance(e.op, ast.Not):
+        return _is_guard_expr(e.operand)
+    if isinstance(e, ast.BoolOp):
+        return all(_is_guard_expr(v) for v in e.values)
+    def plain(x):
+        while isinstance(x, ast.Attribute):
+            x = x.value
+        return isinstance(x, ast.Name)
+    if isinstance(e, ast.Call) and isinstance(e.func, ast.Name) and e.func.id == 'isinstance' and len(e.args) == 2 \
+            and not e.keywords:
+        return plain(e.args[0]) and all(plain(x) for x in (e.args[1].elts if isinstance(e.args[1], ast.Tuple) else [e.args[1]]))
+    if isinstance(e, ast.Compare) and len(e.ops) == 1 and isinstance(e.ops[0], (ast.Is, ast.IsNot)) \
+            and isinstance(e.comparators[0], ast.Constant) and e.comparators[0].value is None:
+        return plain(e.left)
+    return False
+
+
 def exc_matches(name, handler_names):
     cls = _EXC.get(name)
     for h in handler_names:
@@ -357,6 +384,9 @@ CALL_TABLE = {
     _copy.copy: _ident(0),
     datetime.datetime.strptime: _const(datetime.datetime),
     datetime.date.today: _const(datetime.date),
+    datetime.datetime.today: _const(datetime.datetime),
+    datetime.datetime.now: _const(datetime.datetime),
+    datetime.datetime.utcnow: _const(datetime.datetime),
     operator.not_: _const(bool),
     sorted: lambda it, a, k, n: Coll(list, a[0].elem if a and isinstance(a[0], Coll) else TOP),
     any: _const(bool),
@@ -655,6 +685,10 @@ class Interp:
             try:
                 o = getattr(base.obj, attr)
             except AttributeError:
+                # a class synthesised from the package's source stands for the real one, whose body binds the name (enum members,
+                # class constants)
+                if isinstance(base.obj, type) and self._source_class_has(base.obj, attr):
+                    return TOP
                 frame.raises.add(Raised('AttributeError', f'.{attr}', (type(base.obj).__name__,), True,
                                         getattr(node, 'lineno', 0)))
                 return TOP
@@ -686,6 +720,8 @@ class Interp:
             if t is NoneT:
                 frame.raises.add(Raised('AttributeError', f'.{attr}', ('NoneType',), True, getattr(node, 'lineno', 0)))
                 continue
+            if t is type:
+                return TOP          # some class, which one is not known: its attributes (enum members, class constants) are not either
             hints = {}
             try:
                 hints = typing.get_type_hints(t)
@@ -898,6 +934,10 @@ class Interp:
             if o in CALL_RAISES:
                 for x in CALL_RAISES[o]:
                     frame.raises.add(Raised(x, getattr(o, '__name__', str(o)), (), False, getattr(node, 'lineno', 0)))
+            if o in (bool, operator.not_) and args:
+                # bool(x) and operator.not_(x) use the truth value of x: whatever a boolean context does for its type
+                # (Inventory.__bool__ raises) they do too
+                self.truth_test(args[0], frame, node)
             if o in CALL_TABLE:
                 return CALL_TABLE[o](self, args, kw, node)
             if o in CALL_SAMPLED:
@@ -1098,6 +1138,9 @@ class Interp:
         if isinstance(test, ast.UnaryOp) and isinstance(test.op, ast.Not):
             a, b = self.refine(test.operand, env, frame)
             return b, a
+        # a test stored in a local first: `ok = isinstance(x, T)` ... `if ok:` refines as the stored test does
+        if isinstance(test, ast.Name) and isinstance(env.get(_GUARD + test.id), ast.AST):
+            return self.refine(env[_GUARD + test.id], env, Frame())
         # NULL gates over a whole list: any(x is None for x in L) / all(x is not None for x in L) / None in L
         gate = self._list_null_gate(test)
         if gate is not None:
@@ -1221,6 +1264,11 @@ class Interp:
         out = {}
         keys = set().union(*[set(e) for e in envs])
         for k in keys:
+            if k.startswith(_GUARD):
+                vals = [e.get(k) for e in envs]
+                if all(v is vals[0] for v in vals):
+                    out[k] = vals[0]
+                continue
             if k.startswith('__'):
                 out[k] = envs[0].get(k)
                 continue
@@ -1239,6 +1287,9 @@ class Interp:
             env[tgt.id] = v
             for k in [k for k in env if k.startswith(tgt.id + '.')]:
                 del env[k]
+            for k in [k for k in env if k.startswith(_GUARD)]:
+                if k == _GUARD + tgt.id or any(isinstance(n, ast.Name) and n.id == tgt.id for n in ast.walk(env[k])):
+                    del env[k]
         elif isinstance(tgt, (ast.Tuple, ast.List)):
             if isinstance(v, Tup) and len(v.items) == len(tgt.elts):
                 for x, xv in zip(tgt.elts, v.items):
@@ -1253,6 +1304,9 @@ class Interp:
             p = self.path_of(tgt)
             if p is not None:
                 env[p] = v
+                for k in [k for k in env if k.startswith(_GUARD)]:
+                    if any(self.path_of(n) == p for n in ast.walk(env[k]) if isinstance(n, ast.Attribute)):
+                        del env[k]
         elif isinstance(tgt, ast.Starred):
             self.bind_target(tgt.value, TOP, env)
 
@@ -1306,6 +1360,8 @@ class Interp:
                 self.ev(tg.value, env, frame)
                 continue
             self.bind_target(tg, v, env)
+        if len(st.targets) == 1 and isinstance(st.targets[0], ast.Name) and _is_guard_expr(st.value):
+            env[_GUARD + st.targets[0].id] = st.value
         return env
 
     def s_AnnAssign(self, st, env, frame):
